@@ -19,14 +19,14 @@ RULE = ('Complete enumeration of the finite domains, dumped from the real tables
         'definition (vlib/model.py).  Derived laws (commutativity, associativity, idempotence, monotonicity of repeated union; '
         'complement is an involution that fixes S, W, N, -) are checked on the dumped values.  The same dump is repeated under '
         'Miri (undefined-behaviour interpreter).  Uses through the command line: one k-mer observed with every non-empty '
-        'subset of middle bases in every order (64 orderings) through `ska build` (also with self-complementary arms, where the stored code is that of the set closed under complement), and `ska map` (plain, --ambig-mask, --repeat-mask; 64- and 128-bit k) through every code on the '
+        'subset of middle bases in every order (64 orderings) through `ska build` (also with self-complementary arms, where the stored code is that of the set closed under complement; and as consecutive windows of one record, at the junction of two homopolymer runs), and `ska map` (plain, --ambig-mask, --repeat-mask; 64- and 128-bit k) through every code on the '
         'reverse strand (alone, and again on the other strand further along the reference), and `ska distance --allow-ambiguous [--min-freq f]` on tables holding every code in 2..7 samples, compared with 1 - sum p_a p_b for uniform weights (N without weight; rows constant over all samples left out).  Non-trivial: a table cell / function value whose expected value is not the default; distinct = cell.')
 ASSUMPTIONS = ['for U/u the complement table may give A or - (the statement does not cover it)',
                'IUPAC letter sets as in vlib/model.py SETS']
 REQUIRED = {t: ['cells:IUPAC', 'cells:RC', 'cells:AMBIG', 'cells:PROB', 'laws_checked', 'orderings_through_build',
                 'codes_through_map_reverse_strand', 'codes_through_map_inverted_repeat', 'miri_dump_identical',
                 'weights_through_distance', 'dist_pairs_with_identical_ambiguous_codes', 'orderings_with_self_complementary_arms',
-                'mask_flags_through_map_128bit', 'mask_flags_through_map_64bit', 'weights_through_distance_with_min_freq'] for t in ('quick', 'thorough')}
+                'mask_flags_through_map_128bit', 'mask_flags_through_map_64bit', 'weights_through_distance_with_min_freq', 'junction_sightings_through_build'] for t in ('quick', 'thorough')}
 LETTERS = [c for c in M.CODES] + [c.lower() for c in M.CODES]
 
 
@@ -43,6 +43,9 @@ def plan(tier, seed, rng, scale):
             if rcmode:
                 descs.append({'kind': 'orderings', 'k': k, 'rc': True, 'selfcomp': True, 'seed': rng.getrandbits(32)})
             descs.append({'kind': 'maprc', 'k': k, 'rc': rcmode, 'seed': rng.getrandbits(32)})
+    for k in ks:
+        for rcmode in (True, False):
+            descs.append({'kind': 'junction', 'k': k, 'rc': rcmode, 'seed': rng.getrandbits(32)})
     for i in range(150 if tier == 'quick' else 3000):
         descs.append({'kind': 'dist', 'k': rng.choice(ks), 'rc': True, 'ns': rng.randint(2, 7), 'seed': rng.getrandbits(32)})
     return descs
@@ -264,6 +267,36 @@ def run_case(desc, ctx):
                     else:
                         res.count('orderings_through_build')
                         res.nontrivial.append(fingerprint([k, rcmode, order]))
+        return res
+    if kind == 'junction':
+        # two sightings of one split k-mer in CONSECUTIVE windows of one record: the junction of two runs b^(h+1) c^(h+1) holds the
+        # arms b^h . c^h once with middle b and once with middle c; also three sightings around a run of exactly h+2, and the same
+        # with a spacer base between the runs
+        for b1 in 'ACGT':
+            for b2 in 'ACGT':
+                if b1 == b2:
+                    continue
+                for layout in ('plain', 'flanked', 'lower'):
+                    rec = b1 * (h + 1) + b2 * (h + 1)
+                    if layout == 'flanked':
+                        rec = G.rseq(rng, rng.randint(1, k)) + rec + G.rseq(rng, rng.randint(1, k))
+                    if layout == 'lower':
+                        rec = rec.lower()
+                    G.write_fa(ctx.path('j.fa'), [rec])
+                    p = G.ska_build(ctx, ctx.path('j'), [ctx.path('j.fa')], k, rcmode)
+                    res.evals += 1
+                    want = M.table_of([[rec]], k, rcmode)
+                    try:
+                        _hj, Tj = G.nk(ctx, ctx.path('j.skf')) if p.returncode == 0 else (None, None)
+                    except (G.NkFailed, ValueError):
+                        Tj = None
+                    if Tj != want:
+                        d_ = [(x, (Tj or {}).get(x), want.get(x)) for x in set(Tj or {}) | set(want) if (Tj or {}).get(x) != want.get(x)]
+                        res.violate('C15:junction:%s%s' % (b1, b2), 'k=%d rc=%s: record %s (runs of %s and %s meeting): stored %s' % (k, rcmode, rec if len(rec) < 80 else rec[:77] + '...', b1, b2, d_[:3]),
+                                    {'record': rec})
+                    else:
+                        res.count('junction_sightings_through_build')
+                        res.nontrivial.append(fingerprint([k, rcmode, b1, b2, layout]))
         return res
     if kind == 'dist':
         # the weights at their point of use: `ska distance --allow-ambiguous` on tables holding every code
